@@ -80,8 +80,8 @@ theorem BuildInv.init (root : Nat × List Nat) : BuildInv root [] (Node.mk root.
   maxl := by simp [maxLevel_mk, maxLevelList]
 
 theorem BuildInv.step {root : Nat × List Nat} {L : List RLogger} {t : Node} (inv : BuildInv root L t)
-    (l : RLogger) (hnew : ∀ l' ∈ L, ¬ comps l.name <+: comps l'.name) (hok : EndsOk l.name) :
-    BuildInv root (L ++ [l]) (addLogger t l) ∧ weird t l.name = false := by
+    (w : Bool) (l : RLogger) (hnew : ∀ l' ∈ L, ¬ comps l.name <+: comps l'.name) (hok : EndsOk l.name) :
+    BuildInv root (L ++ [l]) (addLogger (t, w) l).1 ∧ (addLogger (t, w) l).2 = w := by
   have hq : comps l.name ≠ [] := comps_ne_nil _
   have hnone : getNode t (comps l.name) = none := by
     cases h : getNode t (comps l.name) with
@@ -90,10 +90,9 @@ theorem BuildInv.step {root : Nat × List Nat} {L : List RLogger} {t : Node} (in
       rcases inv.paths (comps l.name) (by simp [h]) with h0 | ⟨l', hl', hp⟩
       · exact absurd h0 hq
       · exact absurd hp (hnew l' hl')
-  obtain ⟨hadd, hweird⟩ := add_eq_addC t l.name l.apps l.additive l.level hok hnone
-  refine ⟨?_, hweird⟩
+  have hadd := add_eq_addC t l.name l.apps l.additive l.level hok hnone
   unfold addLogger
-  rw [hadd]
+  simp only [hadd, Bool.or_false, and_true]
   constructor
   · intro p
     rw [fdata_addC _ _ _ _ _ hnone, inv.data, inv.data, List.map_append, List.map_cons, List.map_nil]
@@ -117,24 +116,25 @@ def PrefixOrdered (S : List RLogger) : Prop :=
   S.Pairwise (fun a b => ¬ comps b.name <+: comps a.name)
 
 theorem BuildInv.fold {root : Nat × List Nat} (rest : List RLogger) :
-    ∀ (L : List RLogger) (t : Node), BuildInv root L t → PrefixOrdered (L ++ rest) →
+    ∀ (L : List RLogger) (st : Node × Bool), BuildInv root L st.1 → PrefixOrdered (L ++ rest) →
       (∀ l ∈ rest, EndsOk l.name) →
-      BuildInv root (L ++ rest) (rest.foldl addLogger t) ∧ weirdFold t rest = false := by
+      BuildInv root (L ++ rest) (rest.foldl addLogger st).1 ∧ (rest.foldl addLogger st).2 = st.2 := by
   induction rest with
-  | nil => intro L t inv _ _; simpa [weirdFold] using inv
+  | nil => intro L st inv _ _; simpa using inv
   | cons l rest ih =>
-    intro L t inv hord hok
+    intro L st inv hord hok
+    obtain ⟨t, w⟩ := st
     have hnew : ∀ l' ∈ L, ¬ comps l.name <+: comps l'.name := by
       intro l' hl'
       have := (List.pairwise_append.mp hord).2.2 l' hl' l (by simp)
       exact this
-    obtain ⟨inv', hw⟩ := inv.step l hnew (hok l (by simp))
+    obtain ⟨inv', hw⟩ := BuildInv.step inv w l hnew (hok l (by simp))
     have hord' : PrefixOrdered ((L ++ [l]) ++ rest) := by
       simpa [PrefixOrdered, List.append_assoc] using hord
-    obtain ⟨inv'', hw'⟩ := ih (L ++ [l]) (addLogger t l) inv' hord' (fun x hx => hok x (by simp [hx]))
+    obtain ⟨inv'', hw'⟩ := ih (L ++ [l]) (addLogger (t, w) l) inv' hord' (fun x hx => hok x (by simp [hx]))
     refine ⟨?_, ?_⟩
     · simpa [List.append_assoc] using inv''
-    · simp [weirdFold, hw, hw']
+    · simp only [List.foldl_cons, hw', hw]
 
 /-- sorted by byte length with distinct names ⇒ ancestors come first -/
 theorem prefixOrdered_of_sorted (S : List RLogger)
@@ -150,6 +150,18 @@ theorem prefixOrdered_of_sorted (S : List RLogger)
     omega
 
 /-! ### index resolution -/
+
+/-- proof device: the name behind an index, with a default that is never used (`namesOf_eq`) -/
+def nameOf (tbl : List Name) (i : Nat) : Name := tbl.getD i []
+
+theorem namesOf_eq (tbl : List Name) (is : List Nat) (h : ∀ i ∈ is, i < tbl.length) :
+    namesOf tbl is = some (is.map (nameOf tbl)) := by
+  induction is with
+  | nil => rfl
+  | cons i is ih =>
+    have hi : i < tbl.length := h i (by simp)
+    simp only [namesOf, List.getElem?_eq_getElem hi, ih (fun j hj => h j (by simp [hj])), List.map_cons, nameOf,
+      List.getD_eq_getElem?_getD, Option.getD_some]
 
 theorem lastIdx_get {tbl : List Name} {a : Name} {i : Nat} (h : lastIdx tbl a = some i) :
     nameOf tbl i = a := by
@@ -171,6 +183,23 @@ theorem lastIdx_get {tbl : List Name} {a : Name} {i : Nat} (h : lastIdx tbl a = 
         simp [nameOf, hx]
       · cases h
 
+theorem lastIdx_lt {tbl : List Name} {a : Name} {i : Nat} (h : lastIdx tbl a = some i) : i < tbl.length := by
+  induction tbl generalizing i with
+  | nil => simp [lastIdx] at h
+  | cons x xs ih =>
+    simp only [lastIdx] at h
+    cases hl : lastIdx xs a with
+    | some j =>
+      simp only [hl, Option.some.injEq] at h
+      subst h
+      have := ih hl
+      simp; omega
+    | none =>
+      simp only [hl] at h
+      split at h
+      · cases h; simp
+      · cases h
+
 theorem lastIdx_of_mem {tbl : List Name} {a : Name} (h : a ∈ tbl) : ∃ i, lastIdx tbl a = some i := by
   induction tbl with
   | nil => cases h
@@ -184,14 +213,18 @@ theorem lastIdx_of_mem {tbl : List Name} {a : Name} (h : a ∈ tbl) : ∃ i, las
       · obtain ⟨i, hi⟩ := ih h'; rw [hl] at hi; cases hi
 
 theorem resolve_of_mem (tbl : List Name) (refs : List Name) (h : ∀ a ∈ refs, a ∈ tbl) :
-    ∃ is, resolve tbl refs = some is ∧ is.map (nameOf tbl) = refs := by
+    ∃ is, resolve tbl refs = some is ∧ is.map (nameOf tbl) = refs ∧ ∀ i ∈ is, i < tbl.length := by
   induction refs with
-  | nil => exact ⟨[], rfl, rfl⟩
+  | nil => exact ⟨[], rfl, rfl, by simp⟩
   | cons a as ih =>
     obtain ⟨i, hi⟩ := lastIdx_of_mem (h a (by simp))
-    obtain ⟨is, his, hmap⟩ := ih (fun x hx => h x (by simp [hx]))
-    refine ⟨i :: is, by simp [resolve, hi, his], ?_⟩
-    simp [hmap, lastIdx_get hi]
+    obtain ⟨is, his, hmap, hlt⟩ := ih (fun x hx => h x (by simp [hx]))
+    refine ⟨i :: is, by simp [resolve, hi, his], ?_, ?_⟩
+    · simp [hmap, lastIdx_get hi]
+    · intro j hj
+      rcases List.mem_cons.mp hj with rfl | hj'
+      · exact lastIdx_lt hi
+      · exact hlt j hj'
 
 /-- a resolved logger read back through the appender table -/
 def unresolve (tbl : List Name) (r : RLogger) : LoggerCfg :=
@@ -199,15 +232,20 @@ def unresolve (tbl : List Name) (r : RLogger) : LoggerCfg :=
 
 theorem resolveLoggers_of_mem (tbl : List Name) (ls : List LoggerCfg)
     (h : ∀ l ∈ ls, ∀ a ∈ l.appenders, a ∈ tbl) :
-    ∃ rs, resolveLoggers tbl ls = some rs ∧ rs.map (unresolve tbl) = ls := by
+    ∃ rs, resolveLoggers tbl ls = some rs ∧ rs.map (unresolve tbl) = ls ∧
+      ∀ r ∈ rs, ∀ i ∈ r.apps, i < tbl.length := by
   induction ls with
-  | nil => exact ⟨[], rfl, rfl⟩
+  | nil => exact ⟨[], rfl, rfl, by simp⟩
   | cons l ls ih =>
-    obtain ⟨is, his, hmap⟩ := resolve_of_mem tbl l.appenders (h l (by simp))
-    obtain ⟨rs, hrs, hm⟩ := ih (fun x hx => h x (by simp [hx]))
+    obtain ⟨is, his, hmap, hlt⟩ := resolve_of_mem tbl l.appenders (h l (by simp))
+    obtain ⟨rs, hrs, hm, hlts⟩ := ih (fun x hx => h x (by simp [hx]))
     refine ⟨{ name := l.name, level := l.level, additive := l.additive, apps := is } :: rs,
-      by simp only [resolveLoggers, his, hrs], ?_⟩
-    simp [unresolve, hmap, hm]
+      by simp only [resolveLoggers, his, hrs], ?_, ?_⟩
+    · simp [unresolve, hmap, hm]
+    · intro r hr
+      rcases List.mem_cons.mp hr with rfl | hr'
+      · exact hlt
+      · exact hlts r hr'
 
 /-! ### the assembled statement -/
 
@@ -222,10 +260,11 @@ theorem build_spec (cfg : Config) (hv : Valid cfg) :
     ∃ tree, build cfg = some tree ∧ buildWeird cfg = some false ∧
       (∀ p, ((fdata tree p).1, (fdata tree p).2.map (nameOf cfg.appenders)) =
         res (cfg.rootLevel, cfg.rootAppenders) (cfg.loggers.map entOfCfg) p) ∧
-      tree.maxLevel = specMaxLevel cfg := by
+      tree.maxLevel = specMaxLevel cfg ∧
+      (∀ p, ∀ i ∈ (fdata tree p).2, i < cfg.appenders.length) := by
   obtain ⟨_, hnames, hlog, hroot⟩ := hv
-  obtain ⟨ra, hra, hramap⟩ := resolve_of_mem cfg.appenders cfg.rootAppenders hroot
-  obtain ⟨rs, hrs, hrsmap⟩ := resolveLoggers_of_mem cfg.appenders cfg.loggers (fun l hl => (hlog l hl).2)
+  obtain ⟨ra, hra, hramap, hralt⟩ := resolve_of_mem cfg.appenders cfg.rootAppenders hroot
+  obtain ⟨rs, hrs, hrsmap, hrslt⟩ := resolveLoggers_of_mem cfg.appenders cfg.loggers (fun l hl => (hlog l hl).2)
   have hnm : rs.map (·.name) = cfg.loggers.map (·.name) := by
     rw [← hrsmap, List.map_map]; rfl
   have hlv : rs.map (·.level) = cfg.loggers.map (·.level) := by
@@ -243,12 +282,12 @@ theorem build_spec (cfg : Config) (hv : Valid cfg) :
       rw [← hnm]; exact List.mem_map_of_mem (hperm.mem_iff.mp hl)
     obtain ⟨l0, hl0, he⟩ := List.mem_map.mp hmem
     exact he ▸ checkLoggerName_endsOk (hlog l0 hl0).1
-  obtain ⟨inv, hw⟩ := BuildInv.fold (root := (cfg.rootLevel, ra)) S [] _ (BuildInv.init _)
-    (by simpa using hpo) hok
+  obtain ⟨inv, hw⟩ := BuildInv.fold (root := (cfg.rootLevel, ra)) S [] (Node.mk cfg.rootLevel ra [], false)
+    (BuildInv.init _) (by simpa using hpo) hok
   simp only [List.nil_append] at inv
-  refine ⟨S.foldl addLogger (Node.mk cfg.rootLevel ra []), ?_, ?_, ?_, ?_⟩
+  refine ⟨(S.foldl addLogger (Node.mk cfg.rootLevel ra [], false)).1, ?_, ?_, ?_, ?_, ?_⟩
   · simp only [build, hra, hrs, buildTree]; rfl
-  · simp only [buildWeird, hra, hrs]; exact congrArg some hw
+  · simp only [buildWeird, hra, hrs, buildTree]; exact congrArg some hw
   · intro p
     have hndE : ((S.map toEnt).map (·.comps)).Nodup := by
       rw [List.map_map]
@@ -265,30 +304,43 @@ theorem build_spec (cfg : Config) (hv : Valid cfg) :
   · rw [inv.maxl, foldl_max_perm hperm]
     unfold specMaxLevel
     rw [← hlv, List.foldl_map]
+  · intro p i hi
+    rw [inv.data p] at hi
+    rcases res_mem _ _ p i hi with h0 | ⟨e, he, hie⟩
+    · exact hralt i h0
+    · obtain ⟨r, hr, rfl⟩ := List.mem_map.mp he
+      exact hrslt r (hperm.mem_iff.mp hr) i hie
 
-theorem deliver_eq_spec (cfg : Config) (hv : Valid cfg) (t : Name) (lvl : Nat) :
-    deliver cfg t lvl = some (specDeliver cfg t lvl) := by
-  obtain ⟨tree, hb, _, hdata, _⟩ := build_spec cfg hv
-  have h := hdata (comps t)
-  rw [res_eq_spec cfg (comps t) (comps t).length (Nat.le_refl _)] at h
-  simp only [Prod.mk.injEq, fdata] at h
-  simp only [deliver, hb, Option.map_some, logNode, specDeliver, specLevel_eq, effective, h.1, h.2]
-
-theorem appendLoop_eq (tbl : List Name) (fails : Name → Bool) (is : List Nat) :
-    appendLoop tbl fails is = (is.map (nameOf tbl), (is.map (nameOf tbl)).filter fails) := by
-  induction is with
+theorem appendLoop_eq (fails : Name → Bool) (as : List Name) :
+    appendLoop fails as = (as, as.filter fails) := by
+  induction as with
   | nil => rfl
-  | cons i is ih =>
-    simp only [appendLoop, ih, List.map_cons, List.filter_cons]
+  | cons a as ih =>
+    simp only [appendLoop, ih, List.filter_cons]
+
+theorem logNodeF_eq (tbl : List Name) (fails : Name → Bool) (n : Node) (lvl : Nat) :
+    logNodeF tbl fails n lvl = (logNode tbl n lvl).map fun ds => (ds, ds.filter fails) := by
+  unfold logNodeF logNode
+  split
+  · cases namesOf tbl n.apps <;> simp [appendLoop_eq]
+  · rfl
 
 theorem deliverF_eq (cfg : Config) (fails : Name → Bool) (t : Name) (lvl : Nat) :
     deliverF cfg fails t lvl = (deliver cfg t lvl).map fun ds => (ds, ds.filter fails) := by
   unfold deliverF deliver
   cases build cfg with
   | none => rfl
-  | some tree =>
-    simp only [Option.map_some, logNodeF, logNode, appendLoop_eq]
-    split <;> rfl
+  | some tree => simp only [Option.bind_some, logNodeF_eq]
+
+theorem deliver_eq_spec (cfg : Config) (hv : Valid cfg) (t : Name) (lvl : Nat) :
+    deliver cfg t lvl = some (specDeliver cfg t lvl) := by
+  obtain ⟨tree, hb, _, hdata, _, hrange⟩ := build_spec cfg hv
+  have h := hdata (comps t)
+  rw [res_eq_spec cfg (comps t) (comps t).length (Nat.le_refl _)] at h
+  simp only [Prod.mk.injEq, fdata] at h
+  have hn := namesOf_eq cfg.appenders (find tree (comps t)).apps (hrange (comps t))
+  simp only [deliver, hb, Option.bind_some, logNode, hn, specDeliver, specLevel_eq, effective, h.1, h.2]
+  split <;> rfl
 
 /-! ### history machine -/
 
